@@ -130,7 +130,7 @@ impl<'a, W: Write> Prettifier<'a, W> {
         while let Some(g) = self.next_graph() {
             self.write_newline()?;
             self.write_bytes(b"GRAPH ")?;
-            self.write_term(g)?;
+            self.write_non_list_term(g)?;
             self.write_bytes(b" {")?;
             self.indent();
             self.write_graph()?;
@@ -215,7 +215,7 @@ impl<'a, W: Write> Prettifier<'a, W> {
                 }
                 predicate = Some(p);
                 self.write_newline()?;
-                self.write_term(p)?;
+                self.write_non_list_term(p)?;
                 self.write_bytes(b" ")?;
                 self.indent(); // to object-level
             } else {
@@ -282,7 +282,7 @@ impl<'a, W: Write> Prettifier<'a, W> {
             Triple => {
                 self.write_bytes(b"<< ")?;
                 for t in term.triple().unwrap() {
-                    self.write_term(t)?;
+                    self.write_non_list_term(t)?;
                     self.write_bytes(b" ")?;
                 }
                 self.write_bytes(b">>")
@@ -290,10 +290,24 @@ impl<'a, W: Write> Prettifier<'a, W> {
         }
     }
 
+    /// Write a term in a position where the grammar does not allow a collection
+    /// (predicate, graph name, component of a quoted triple):
+    /// there, rdf:nil can not be abbreviated as "()".
+    fn write_non_list_term(&mut self, term: &'a SimpleTerm<'a>) -> io::Result<()> {
+        match term.iri() {
+            Some(iri) => self.write_plain_iri(&iri),
+            None => self.write_term(term),
+        }
+    }
+
     fn write_iri(&mut self, iri: &IriRef<MownStr>) -> io::Result<()> {
         if rdf::nil == iri {
             return self.write_bytes(b"()");
         }
+        self.write_plain_iri(iri)
+    }
+
+    fn write_plain_iri(&mut self, iri: &IriRef<MownStr>) -> io::Result<()> {
         let Some(iri) = Iri::new(iri.as_str()).ok() else {
             return write!(self.write, "<{}>", iri.as_str());
         };
@@ -362,7 +376,7 @@ impl<'a, W: Write> Prettifier<'a, W> {
                 write!(self.write, "@{}", tag.as_str())?;
             } else if xsd::string != datatype {
                 self.write_bytes(b"^^")?;
-                self.write_iri(&datatype)?;
+                self.write_plain_iri(&datatype)?;
             }
         }
         Ok(())
